@@ -98,6 +98,7 @@ class Engine(ExprMixin, CallMixin):
         self.npaths = 0
         self._names = {}
         self._seqset = {}
+        self.qscope = []
 
     # ------------------------------------------------------------------ obligations
     def emit(self, st, goal, kind, node, label=""):
